@@ -322,6 +322,7 @@ def c04_parts(tier, seed):
             P("tb-net0", "c04_mates_net0", "fast", ["--part", "tb", "--names", "KRvK", "--depths", "2,4", "--tt", "512", "--null", "1", "--stride", 2], require=["verified_mate_claims"], deadline_frac=0.9),
             P("solver", T, "fast", ["--part", "solver", "--perft", 2, "--maxmate", 2, "--depths", "1,2,3,4,5", "--tt", "512,65536", "--null", "1,0"], require=["mate_in_one_roots", "verified_mate_claims"], deadline_frac=0.9),
             P("tb-asan", T, "seq", ["--part", "tb", "--names", "KQvK", "--depths", "1,2,3", "--tt", "512", "--null", "1", "--stride", 16], require=["verified_mate_claims"], deadline_frac=0.9),
+            P("tb-backed", T, "fast", ["--part", "tbsearch", "--names", "KQvKN", "--maxmate", 3, "--stride", 999, "--sstride", 9, "--lstride", 3], require=["verified_mate_claims", "verified_mated_claims", "short_loss_roots"], deadline_frac=0.9),
         ]
     return [
         P("tb-net1", T, "fast", ["--part", "tb", "--names", "KQvK,KRvK,KvKQ,KvKR", "--depths", "1,2,3,4,6", "--tt", "512,65536", "--null", "1,0"], require=["verified_mate_claims", "verified_mated_claims", "mate_in_one_roots"], deadline_frac=0.95),
@@ -330,19 +331,23 @@ def c04_parts(tier, seed):
         P("tb-net0", "c04_mates_net0", "fast", ["--part", "tb", "--names", "KQvK,KRvK", "--depths", "1,2,3,4,6", "--tt", "512", "--null", "1,0"], require=["verified_mate_claims"], deadline_frac=0.95),
         P("solver", T, "fast", ["--part", "solver", "--perft", 3, "--maxmate", 3, "--depths", "1,2,3,4,5,6,7", "--tt", "512,65536", "--null", "1,0"], require=["mate_in_one_roots", "verified_mate_claims"], deadline_frac=0.95),
         P("tb-asan", T, "seq", ["--part", "tb", "--names", "KQvK,KRvK", "--depths", "1,2,3,4", "--tt", "512", "--null", "1", "--stride", 4], require=["verified_mate_claims"], deadline_frac=0.95),
+        P("tb-backed", T, "fast", ["--part", "tbsearch", "--names", "KQvKN,KQvKB,KRvKB,KRvKN,KQvKR,KBNvK,KvKQN", "--maxmate", 3, "--stride", 199, "--sstride", 1, "--lstride", 1], require=["verified_mate_claims", "verified_mated_claims", "short_loss_roots"], deadline_frac=0.95),
     ]
 
 CHECKS["C04"] = dict(
     parts=c04_parts,
     rule="states = searches executed ((root, depth, table size, null-move, network) tuples, distinct by construction); transitions = PV lines examined; non-trivial = the search reported at least one mate score",
     alphabet="roots: every legal placement with the white king in the a1-d1-d4 triangle of KQvK, KRvK (and more classes / strides per tier), both sides to move; positions of the seed trees "
-             "in which the independent AND/OR solver finds a forced mate; configurations: depth x {512-entry, 64k-entry table} x UseNullMove x synthetic network; tables persist across roots (histories)",
+             "in which the independent AND/OR solver finds a forced mate; configurations: depth x {512-entry, 64k-entry table} x UseNullMove x synthetic network; tables persist across roots (histories); "
+             "tb-backed: searches without depth limit (16 MB table, on-demand tablebase built and consulted) on 4-men roots that will be announced as mates in <= 3 (every 3rd loss / 9th win root of "
+             "KQvKN in quick, all of 7 classes in thorough) plus every 999th (199th) other placement",
     oracle="exact distance to mate from a generated table (C12-checked) resp. the AND/OR solver: every exact or lower-bound 'mate N>0' line => mate can be forced within N; the delivered best move keeps a forced mate; "
-           "a completed search ending in 'mate -N' => the side is mated within N; mate in one exists => final 'mate 1' and a mating best move at every depth",
+           "a completed search ending in 'mate -N' => the side is mated within N; mate in one exists => final 'mate 1' and a mating best move at every depth; "
+           "tb-backed: only the independent AND/OR solver (exhaustive search with the oracle's move generator, N <= 3) decides; texel's own table is used to select roots, never to judge",
     bound=dict(quick="KQvK/KRvK all triangle placements at depth 1-4 (2 table sizes, null on/off), depth 6 on every 13th, solver roots within 2 plies of 30 seeds with mate <= 2",
                thorough="4 three-men classes to depth 6, depth 8-12 on every 3rd, four 4-men classes thinned, solver roots within 3 plies with mate <= 3"),
     assumptions=["claims whose distance exceeds what the oracle can verify (non-tablebase positions, N > bound) are counted as unverified, never as pass",
-                 "depth-limited searches do not build or probe the on-demand tablebase (minProbeDepth = 100): the search's own mate bookkeeping is exercised", "Threads 1"],
+                 "depth-limited searches do not build or probe the on-demand tablebase (minProbeDepth = 100): the search's own mate bookkeeping is exercised; the tb-backed part covers the tablebase path", "Threads 1"],
     technique="bounded-exhaustive enumeration of roots x configurations on the real search, exact-DTM and AND/OR-solver reference",
     level_text="Every root of the stated universes is searched by the real code in every configuration of the lattice and every mate announcement is checked against exact game-theoretic values.",
     level_note="Trusted: the C12-validated generator, the independent AND/OR solver.",
@@ -407,24 +412,37 @@ def c11_parts(tier, seed):
         P("repetition", T, "fast", ["--part", "rep", "--len", 10 if q else 12], require=["third_occurrence_moves", "second_occurrence_moves"], deadline_frac=0.9),
         P("fifty-move", T, "fast", ["--part", "fifty"], require=["mating_moves", "nontrivial"], deadline_frac=0.9),
         P("repetition-asan", T, "seq", ["--part", "rep", "--len", 6 if q else 8], require=["states"], deadline_frac=0.9),
+        P("game-console", "c11_game", "fast", ["--depth", 6 if q else 8], require=["rep_claims_accepted", "fifty_claims_accepted", "claims_due", "nontrivial"], deadline_frac=0.9),
+        P("game-console-asan", "c11_game", "seq", ["--depth", 4 if q else 5], require=["rep_claims_accepted", "claims_due"], deadline_frac=0.9),
     ]
 
 CHECKS["C11"] = dict(
     parts=c11_parts,
     rule="states = game histories executed as sessions (rep) resp. searches (fifty), distinct by construction; transitions = (history, move, depth) searches judged; "
-         "non-trivial = the history has a candidate move creating a third occurrence / the move completes 100 plies without mating",
+         "non-trivial = the history has a candidate move creating a third occurrence / the move completes 100 plies without mating; "
+         "game-console: states = distinct complete states of the real Game object (position with raw en-passant square, move list, undo records, offer flags, cursor, claim / resign state) "
+         "reached by breadth-first search, transitions = single commands executed and compared, non-trivial = game over, draw offer on the table, or cursor inside the move list",
     alphabet="rep: 6 families (startpos knight shuffles, KRKR shuffle, rook shuffles that lose castling rights, double push with an en-passant capture that is illegal because of a pin, "
              "the same with a legal capture, shuffles after an irreversible prefix) x ALL legal sequences up to length L over the family's reversible alphabet x candidate moves "
              "(alphabet moves + 2 others) x depth {1,2,3[,5]} through the real UCI stack (position fen F moves H; go depth d searchmoves m); "
-             "fifty: every KQK/KRK placement (triangle, either colour) with a mate in one at clock 99 [98,100] x every legal move x depth, and clocks 90..110 by FEN on 4 positions",
+             "fifty: every KQK/KRK placement (triangle, either colour) with a mate in one at clock 99 [98,100] x every legal move x depth, and clocks 90..110 by FEN on 4 positions; "
+             "game-console: 15 start histories (start position, castling-right shuffles, double push with illegal / legal en-passant capture, clocks 97-99 incl. a mating 100th ply and a capture, "
+             "mate / stalemate / dead-material in one, each also with a prefix that already holds two occurrences) x all command sequences up to the depth over "
+             "{undo, redo, undo-all, redo-all, draw rep, draw 50, draw accept, resign, new/setpos, invalid setpos, and for each of 3-5 moves: m, draw rep m, draw 50 m, draw offer m}",
     oracle="independent oracle: occurrences counted by the FIDE key (placement, side, castling rights, legally possible en-passant capture) since the last irreversible move; "
-           "third occurrence => final score exactly 'cp 0'; move completing 100 plies without mate => 'cp 0', mating move => 'mate 1'; plus the session contract",
-    bound=dict(quick="L = 10 (all 2nd/3rd occurrences at every length and parity up to 11 plies), depth 1-3", thorough="L = 12, depth 1-3,5, clocks 98-100"),
-    assumptions=["console game mode (draw claims, game-over states) is not covered by this check yet; see DESIGN.md",
+           "third occurrence => final score exactly 'cp 0'; move completing 100 plies without mate => 'cp 0', mating move => 'mate 1'; plus the session contract; "
+           "game-console: after every command the real Game's return value, position, game state, state / result strings, draw-offer flag, cursor and getHistory() equal a reference model "
+           "whose chess content (legality, mate, stalemate, dead material, FIDE repetition count over the game line, half-move clock) comes from the independent oracle, "
+           "and ComputerPlayer::canClaimDraw equals the rule-derived claim for every legal move of every ALIVE state",
+    bound=dict(quick="L = 10 (all 2nd/3rd occurrences at every length and parity up to 11 plies), depth 1-3; game-console: command depth 6 (4 under ASan/UBSan)",
+               thorough="L = 12, depth 1-3,5, clocks 98-100; game-console: command depth 8 (5 under ASan/UBSan)"),
+    assumptions=["console game mode: what 'redo' and 'setpos' do to an already adjudicated game (claim state kept / reset) is taken from the implementation, the rules are silent on it",
                  "Contempt 0 (a non-zero contempt deliberately shifts the draw score)"],
-    technique="bounded-exhaustive enumeration of game histories on the real UCI stack / search, independent repetition and 50-move oracle",
-    level_text="All histories over the shuffle alphabets up to the length bound are fed to the real engine and every draw-producing move is checked for an exact draw score.",
-    level_note="Trusted: the oracle's repetition key; histories outside the 6 families are not covered.",
+    technique="bounded-exhaustive enumeration of game histories on the real UCI stack / search with an independent repetition and 50-move oracle, plus explicit-state breadth-first search "
+              "over command histories of the real console Game object against a reference model",
+    level_text="All histories over the shuffle alphabets up to the length bound are fed to the real engine and every draw-producing move is checked for an exact draw score; "
+               "all command sequences up to the depth bound are executed on the real Game object from 15 start histories and compared with the rules after every command.",
+    level_note="Trusted: the oracle's repetition key; histories outside the 6 families / 15 start histories are not covered.",
 )
 
 # ------------------------------------------------------------------------------------------ C08
@@ -438,6 +456,10 @@ def c08_parts(tier, seed):
         P("slots-2x2", T, "sched", ["--part", "slots", "--threads", 2, "--ops", 2, "--init", 0], require=["probe_hits"], deadline_frac=0.9),
         P("slots-2x2-oldgen", T, "sched", ["--part", "slots", "--threads", 2, "--ops", 2, "--init", 2], require=["probe_hits"], deadline_frac=0.9),
         P("slots-3x1", T, "sched", ["--part", "slots", "--threads", 3, "--ops", 1, "--init", 0], require=["probe_hits"], deadline_frac=0.9),
+        P("weak-2x1", T, "sched", ["--part", "weak", "--threads", 2, "--ops", 1, "--init", 0], require=["probe_hits", "probe_misses"]),
+        P("weak-2x1-oldgen", T, "sched", ["--part", "weak", "--threads", 2, "--ops", 1, "--init", 2], require=["probe_hits"]),
+        P("weak-2x2", T, "sched", ["--part", "weak", "--threads", 2, "--ops", 2, "--init", 0], require=["probe_hits"], deadline_frac=0.9),
+        P("weak-3x1", T, "sched", ["--part", "weak", "--threads", 3, "--ops", 1, "--init", 0], require=["probe_hits"], deadline_frac=0.9),
         P("ply-shift", T, "sched", ["--part", "ply"], require=["nontrivial"]),
         P("index-sweep", T, "sched", ["--part", "index"], require=["nontrivial"], deadline_frac=0.9),
         P("real-tables-3men", T, "sched-asan", ["--part", "real", "--mb", "7,8,9,12,16,17,31,32,33,64", "--fourmen", 0], workers=10, require=["nontrivial"]),
@@ -449,6 +471,10 @@ def c08_parts(tier, seed):
             P("slots-3x1-oldgen", T, "sched", ["--part", "slots", "--threads", 3, "--ops", 1, "--init", 2], require=["probe_hits"], deadline_frac=0.9),
             P("slots-3x2", T, "sched", ["--part", "slots", "--threads", 3, "--ops", 2, "--init", 0, "--maxsched", 2000000], require=["probe_hits"], deadline_frac=0.95),
             P("slots-2x2-asan", T, "sched-asan", ["--part", "slots", "--threads", 2, "--ops", 2, "--init", 0], require=["probe_hits"], deadline_frac=0.9),
+            P("weak-2x1-full", T, "sched", ["--part", "weak", "--threads", 2, "--ops", 1, "--init", 1], require=["probe_misses"]),
+            P("weak-2x2-full", T, "sched", ["--part", "weak", "--threads", 2, "--ops", 2, "--init", 1], require=["probe_hits"], deadline_frac=0.9),
+            P("weak-2x2-oldgen", T, "sched", ["--part", "weak", "--threads", 2, "--ops", 2, "--init", 2], require=["probe_hits"], deadline_frac=0.9),
+            P("weak-3x2", T, "sched", ["--part", "weak", "--threads", 3, "--ops", 2, "--init", 0, "--maxcombos", 20000000], require=["probe_hits"], deadline_frac=0.95),
         ]
     return parts
 
@@ -460,21 +486,26 @@ CHECKS["C08"] = dict(
          "non-trivial = every explored interleaving state (two or three threads on one bucket), mate scores, non-power-of-two sizes, tables with a resident tablebase",
     alphabet="slots: 2-3 threads x 1-2 operations from {insert(k0), probe(k0), insert(k1), probe(k1), insert(k2), insert(k0 with empty move)} on three keys forced into one bucket of the real "
              "TranspositionTable (512 entries); initial bucket {empty, full of other keys, k0 from an older generation}; thread programs up to symmetry, containing >= 1 insert and >= 1 probe; "
-             "scheduling points = every atomic load/store (atomic shim), ALL sequentially consistent interleavings, no preemption bound; ply: all scores |s| <= MATE0 x plies 0..200 x 0..200; "
+             "scheduling points = every atomic load/store (atomic shim), ALL sequentially consistent interleavings, no preemption bound; "
+             "weak: writers-only programs of the same shape (2-3 threads x 1-2 inserts from 5 records), for each the set of values every one of the 8 bucket words holds in any reachable state "
+             "of any interleaving, then EVERY element of the product of the 8 sets installed in the bucket and probed for the 3 keys (relaxed-memory over-approximation: a relaxed load may "
+             "return any value stored to that location); ply: all scores |s| <= MATE0 x plies 0..200 x 0..200; "
              "index: every Hash value 1..1024 MB, powers of two to 2^20 MB, each minus the tablebase region, in-tree sizes, every multiple of 4 in [512, 9000 (70000)] x all 2^16 key "
              "prefixes x low-bit patterns; real tables: reSize(Hash) + real updateTB for Hash in a boundary list, then hash traffic",
     oracle="a probe (during or after the interleaving) returns a miss or exactly one record that was passed to insert for that key (move of that call or, for an empty move, of an earlier "
            "record); getScore(q) after setScore(s,p) = s shifted by p-q for mate scores, s otherwise; getIndex+3 < usedSize and 4-aligned; tablebase bytes unchanged by inserts, probes "
            "and generation refreshes and the table still answers",
-    bound=dict(quick="2x1 (3 initial contents), 2x2 (2 initial contents), 3x1; full ply product; index sweep with 12 low-bit patterns; real tables Hash <= 516 MB",
-               thorough="additionally 2x2 full bucket, 3x1 old generation, 3x2 (capped at 2M schedules per program, reported), ASan build, index sweep with 52 patterns, Hash up to 2052 MB"),
+    bound=dict(quick="2x1 (3 initial contents), 2x2 (2 initial contents), 3x1; weak products for 2x1 (2 initial contents), 2x2, 3x1; full ply product; index sweep with 12 low-bit patterns; real tables Hash <= 516 MB",
+               thorough="additionally 2x2 full bucket, 3x1 old generation, 3x2 (capped at 2M schedules per program, reported), weak products for all initial contents and 3x2 (programs above 20M mixtures skipped, reported), ASan build, index sweep with 52 patterns, Hash up to 2052 MB"),
     assumptions=["keys and data words of the alphabet satisfy d_A xor d_B != k_A xor k_B (the xor scheme's stated assumption, true for random 64-bit Zobrist keys)",
-                 "sequentially consistent interleavings of the relaxed atomics only; store/load reordering of the two words is not modelled (no Spin model was built)",
+                 "interleavings are sequentially consistent; weaker orders are covered for the PROBE side only, by the per-location product (any mixture of values ever stored to each word); "
+                 "an insert that chooses its slot from such a mixed view is not modelled",
                  "state caching assumes thread-local state is a function of the values read so far (deterministic code)"],
-    technique="stateful exhaustive exploration of all interleavings of atomic accesses on the real code (fiber scheduler + atomic shim, state caching), plus exhaustive enumeration of scores/plies and table sizes",
+    technique="stateful exhaustive exploration of all interleavings of atomic accesses on the real code (fiber scheduler + atomic shim, state caching), exhaustive enumeration of the "
+              "relaxed-memory mixture product collected from those interleavings, plus exhaustive enumeration of scores/plies and table sizes",
     level_text="Every sequentially consistent interleaving of the stated small thread programs on one bucket of the real table is explored (no preemption bound) and every probe result is "
                "checked against the set of records ever stored; index arithmetic is enumerated over every configurable size and all 2^16 key prefixes.",
-    level_note="Trusted: the fiber scheduler (scheduling points only at atomic accesses; the code between them touches thread-local data only). Weak-memory reorderings are not covered.",
+    level_note="Trusted: the fiber scheduler (scheduling points only at atomic accesses; the code between them touches thread-local data only). Weak-memory behaviour: probe side by over-approximation (weak parts), insert side not covered.",
 )
 
 # ------------------------------------------------------------------------------------------ C07
@@ -664,8 +695,9 @@ def c06_parts(tier, seed):
     T = "c06_time"
     return [
         P("allocation-grid", T, "sched", ["--part", "grid"], require=["nontrivial"]),
-        P("delivery-rate1", T, "sched", ["--part", "delivery", "--rate", 1], require=["nontrivial", "searched_moves"], deadline_frac=0.9),
-        P("delivery-rate100", T, "sched", ["--part", "delivery", "--rate", 100], require=["nontrivial"], deadline_frac=0.9),
+        P("delivery-rate1", T, "sched", ["--part", "delivery", "--rate", 1], require=["nontrivial", "searched_moves", "stops_landing_mid_interval"], deadline_frac=0.9),
+        P("delivery-rate100", T, "sched", ["--part", "delivery", "--rate", 100], require=["nontrivial", "stops_landing_mid_interval"], deadline_frac=0.9),
+        P("delivery-threads2", T, "sched", ["--part", "delivery", "--rate", 10 if tier == "quick" else 1, "--threads", 2], require=["nontrivial", "stops_landing_mid_interval"], deadline_frac=0.9),
     ] + ([] if tier == "quick" else [P("delivery-asan", T, "sched-asan", ["--part", "delivery", "--rate", 20, "--tier", "quick"], require=["nontrivial"], deadline_frac=0.5)])
 
 CHECKS["C06"] = dict(
@@ -674,16 +706,17 @@ CHECKS["C06"] = dict(
     rule="states = (time control, options, side) tuples evaluated by the real computeTimeLimit resp. timed sessions executed; transitions = limit pairs checked / transcript lines; "
          "non-trivial = the buffer actually reduces the budget (grid) / the run ended because of a time limit or an injected stop/ponderhit (not by depth or mate)",
     alphabet="grid: clocks {1,2,9,10,11,99,100,101,999,1000,1001,1999,2000,1e4,1e5,1e6,1e7}^2 x increments {0,1,10,999,1e4,1e5}^2 x movestogo {0,1,2,3,34,35,36,100} x BufferTime "
-             "{1,10,1000,10000} x Ponder x side, and movetime {1,10,1000,1e5}; delivery: real UCI sessions (Threads 1) under the controlled scheduler with a virtual clock driven by "
+             "{1,10,1000,10000} x Ponder x side, and movetime {1,10,1000,1e5}; delivery: real UCI sessions (Threads 1, and Threads 2 under the default schedule) under the controlled scheduler with a virtual clock driven by "
              "searched nodes (rate 1 and 100 us per move made by the search): movetime {1,10,50,300}, clock {10,100,1200,2300[,5000]} x movestogo {0,1,2,35} x inc {0,50} x options "
-             "{default, BufferTime 1, Ponder[, BufferTime 10000, MaxNPS]} x positions {one legal move, KPK, startpos, middlegame}; stop / ponderhit injected after k = 1..10 (24) virtual ms",
+             "{default, BufferTime 1, Ponder[, BufferTime 10000, MaxNPS]} x positions {one legal move, KPK, startpos, middlegame}; stop / ponderhit injected (500 + 613 k) searched nodes after the go, k = 1..10 (24): every phase of the 1000-node polling interval",
     oracle="grid: 1 <= soft <= hard <= budget (movetime, resp. clock - min(BufferTime, 0.9 clock)), read from the real object; delivery (virtual time): bestmove - go <= budget + I with the "
            "nominal polling interval I = 2 x 1000 nodes x rate (+1 ms rounding); after stop / ponderhit with exhausted limits bestmove - return of the limit-changing Search::timeLimit call "
            "<= I + 10 ms (release loop); plus deadlock / contract oracles",
-    bound=dict(quick="full grid (1.3 M tuples); ~460 timed sessions per rate", thorough="more options and clocks, k up to 24, ASan sessions"),
+    bound=dict(quick="full grid (1.3 M tuples); 512 timed sessions per rate (1, 100 us/node with Threads 1; 10 us/node with Threads 2)", thorough="more options and clocks, k up to 24, Threads 2 at 1 us/node, ASan sessions"),
     assumptions=["wall-clock behaviour (OS stalls) is outside any deterministic check; clocks of 0 and increments > 1e5 are outside the quantifier",
                  "the virtual clock advances only with moves made by the search (ld --wrap of Position::makeMove) and with sleeps; scheduling points and clock queries are free",
-                 "Threads 1 for timed sessions (the stop test runs on the main search thread)"],
+                 "with Threads 2 virtual time is the work of the main search thread only (under a serialising scheduler a helper's nodes must not consume the time of a thread that is not running); "
+                 "timed sessions are executed under the default schedule, not explored over schedules"],
     technique="exhaustive enumeration of the time-allocation grid on the real code, plus deterministic execution of timed sessions under a controlled scheduler and virtual clock with fault "
               "(stop / ponderhit) injection at every polling index",
     level_text="The allocation arithmetic is evaluated on the complete boundary grid; delivery is checked by running the real engine under a node-driven virtual clock, so every run is deterministic and replayable.",
